@@ -210,6 +210,37 @@ def tdc_oracle(rng, E0, parts):
 
 
 # ------------------------------------------------------------------------------------------------ correspondence goals
+def vectorised_oracle(rng, E0, parts):
+    """Bmad-X tracking of an element whose strength is a vector of mixed signs (and an exact zero for the quadrupole): every
+    entry must equal the Bmad-X tracking of the corresponding scalar element (a per-sample branch replaced by a whole-tensor
+    branch shows up only here; the scalar cases of the other oracles cannot see it)."""
+    import cheetah
+    L = round(rng.uniform(0.1, 1.0), 3)
+    if rng.random() < 0.6:
+        ks = [round(rng.uniform(0.5, 10), 3), -round(rng.uniform(0.5, 10), 3), 0.0, round(rng.uniform(-2, 2), 3)]
+        rng.shuffle(ks)
+        steps = rng.choice([1, 2])
+        vec = cheetah.Quadrupole(length=tt(L), k1=tt(ks), num_steps=steps, tracking_method="bmadx", dtype=T64)
+        singles = [cheetah.Quadrupole(length=tt(L), k1=tt(k), num_steps=steps, tracking_method="bmadx", dtype=T64) for k in ks]
+        what, vals = "Quadrupole(k1=vector)", ks
+    else:
+        angs = [round(rng.uniform(0.05, 0.6), 3), -round(rng.uniform(0.05, 0.6), 3), round(rng.uniform(1.6, 2.4), 3), -round(rng.uniform(1.6, 2.4), 3)]
+        rng.shuffle(angs)
+        e1 = round(rng.uniform(-0.2, 0.2), 3)
+        vec = cheetah.Dipole(length=tt(L), angle=tt(angs), dipole_e1=tt(e1), tracking_method="bmadx", dtype=T64)
+        singles = [cheetah.Dipole(length=tt(L), angle=tt(a), dipole_e1=tt(e1), tracking_method="bmadx", dtype=T64) for a in angs]
+        what, vals = "Dipole(angle=vector)", angs
+    out = vec.track(beam(parts, E0)).particles
+    if tuple(out.shape[:-2]) != (len(vals),):
+        return {"what": f"{what}: outgoing particles have vector shape {tuple(out.shape[:-2])}, expected ({len(vals)},)", "length": L, "values": vals}
+    for i, el in enumerate(singles):
+        ref = el.track(beam(parts, E0)).particles
+        if bool(torch.isfinite(ref).all()) and close_parts(out[i], ref, 1e-11, 1e-15) is not None:
+            return {"what": f"{what}: entry {i} (value {vals[i]}) of the vectorised Bmad-X tracking differs from the scalar element tracked alone",
+                    "length": L, "values": vals, "vectorised_entry": out[i].tolist(), "scalar": ref.tolist()}
+    return None
+
+
 def drift_goals(L, E0, parts, out, e_out):
     m = m_eV()
     Ll, El, M = dyadic(L), dyadic(E0), dyadic(m)
@@ -615,6 +646,14 @@ def main(tier, replay=None):
             owner += [len(cases) - 1] * len(gs)
             run.cov["traces_validated_against_impl"] += 1
             run.sample({"case": case, "observed": o.particles.tolist()})
+        if k % 3 == 1:
+            try:
+                f = vectorised_oracle(run.rng, case["E0"], case["particles"])
+            except Exception as ex:
+                f = {"what": "exception in vectorised Bmad-X tracking: " + repr(ex)[:300]}
+            run.count("vectorised_vs_scalar")
+            if f:
+                bad.append({"case": dict(case, vectorised=True), "failure": f})
         if k % 3 == 0:
             f = tdc_oracle(run.rng, case["E0"], case["particles"])
             run.count("tdc_off_vs_drift")
